@@ -4,6 +4,10 @@ inversion of `step?`, the inductive invariant `Inv`, the termination measure `mu
 -/
 import GemseoVerif.Model.C13
 
+set_option linter.unusedSimpArgs false
+set_option linter.unusedSectionVars false
+set_option linter.unusedVariables false
+
 namespace GV.C13
 
 variable {α β : Type}
